@@ -478,8 +478,15 @@ def key_arg(vars_, ids, form):
             return (A1(vs),)
         n = len(vs)
         if form == 4 and n >= 2 and n % 2 == 0:
+            half = n // 2
+            others = [v for v in vars_ if isinstance(v, BoolVar) == all_b and all(v is not k for k in vs)]
+            if others and ids[0] % 2 == 1:
+                # rows 0 and 2 of a three-row grid (strided row slice, full width): the middle row holds other
+                # variables of the same sort and must NOT become keys
+                grid = A2(vs[:half] + [others[i % len(others)] for i in range(half)] + vs[half:], (3, half))
+                return (grid[::2],) if ids[0] % 4 == 1 else (grid[::2, :],)
             # a 2-D array whose cells are exactly the keys (their ids need not be consecutive)
-            return (A2(vs, (2, n // 2)),)
+            return (A2(vs, (2, half)),)
         if form == 5 and n >= 2 and n % 2 == 0:
             # a 2-D slice of a wider grid: the rightmost column holds other variables of the same
             # sort and must NOT become keys
